@@ -339,9 +339,12 @@ impl Property for Univ {
             _ => {}
         }
         match self.id {
-            "C01" => v.push(Box::new(BigInput { mib: if thorough { 64 } else { 8 } })),
+            "C01" => {
+                v.push(Box::new(BigInput { mib: if thorough { 64 } else { 8 } }));
+                v.push(Box::new(ProgSweep { seed: mix2(seed, 0x10), programs: if thorough { 20_000 } else { 2_000 }, mode: ProgMode::Truncate }));
+            }
             "C04" | "C05" => v.push(Box::new(ProgSweep { seed: mix2(seed, 0x04), programs: if thorough { 20_000 } else { 2_000 }, mode: ProgMode::InsertLf })),
-            "C10" | "C09" => v.push(Box::new(ProgSweep { seed: mix2(seed, 0x10), programs: if thorough { 20_000 } else { 2_000 }, mode: ProgMode::Truncate })),
+            "C10" | "C09" | "C02" | "C06" => v.push(Box::new(ProgSweep { seed: mix2(seed, 0x10), programs: if thorough { 20_000 } else { 2_000 }, mode: ProgMode::Truncate })),
             "C08" => {
                 if thorough {
                     v.push(Box::new(NumExh { maxlen: 6 }));
